@@ -589,7 +589,7 @@ func main() {
 		race     bool
 	}
 	var jobs []job
-	nh := r.Pick(160, 4000)
+	nh := r.Pick(160, 16000)
 	batch := nh / 8
 	for b := 0; b < 8; b++ {
 		k := kit.SJSON
